@@ -127,19 +127,21 @@ class LinesearchSolver(NonlinearSolver):
                 if not np.isscalar(ref):
                     ref = ref.ravel()
 
-                if var_lower is not None:
-                    if self._lower_bounds is None:
-                        self._lower_bounds = np.full(len(system._outputs), -np.inf)
-                    if not np.isscalar(var_lower):
-                        var_lower = var_lower.ravel()
-                    self._lower_bounds[start:end] = (var_lower - ref0) / (ref - ref0)
+                if self._lower_bounds is None:
+                    self._lower_bounds = np.full(len(system._outputs), -np.inf)
+                if self._upper_bounds is None:
+                    self._upper_bounds = np.full(len(system._outputs), np.inf)
 
-                if var_upper is not None:
-                    if self._upper_bounds is None:
-                        self._upper_bounds = np.full(len(system._outputs), np.inf)
-                    if not np.isscalar(var_upper):
-                        var_upper = var_upper.ravel()
-                    self._upper_bounds[start:end] = (var_upper - ref0) / (ref - ref0)
+                var_lower = -np.inf if var_lower is None else np.ravel(var_lower)
+                var_upper = np.inf if var_upper is None else np.ravel(var_upper)
+
+                # The bounds are mapped into the scaled space of the outputs. That map reverses
+                # the order when ref < ref0, so the image of the lower bound is then the upper
+                # bound of the scaled variable (and vice versa).
+                bound0 = (var_lower - ref0) / (ref - ref0)
+                bound1 = (var_upper - ref0) / (ref - ref0)
+                self._lower_bounds[start:end] = np.minimum(bound0, bound1)
+                self._upper_bounds[start:end] = np.maximum(bound0, bound1)
 
                 start = end
         else:
